@@ -12,6 +12,7 @@ import (
 	"github.com/anishathalye/porcupine"
 	"github.com/kercylan98/vivid"
 	"github.com/kercylan98/vivid/internal/actor"
+	"github.com/kercylan98/vivid/pkg/ves"
 	vsimrt "vsimrt/simrt"
 )
 
@@ -148,8 +149,15 @@ func c19PubSub(r *R) {
 		return vivid.SupervisionDecisionRestart
 	}
 	holder := &Spec{Name: "subs", Strategy: vivid.OneForOneStrategy(w.NewMaker("subs", decide))}
+	// in half of the runs the subscribers also follow the system's own ActorKilledEvent: the event announcing a subscriber's
+	// termination is published "after the subscriber has terminated" and must not be sent to it any more
+	lifecycleSubs := r.Chance(50)
 	for i := 0; i < nSubs; i++ {
-		holder.Children = append(holder.Children, &Spec{Name: fmt.Sprintf("s%d", i), OnOther: onOther(i)})
+		sp := &Spec{Name: fmt.Sprintf("s%d", i), OnOther: onOther(i)}
+		if lifecycleSubs {
+			sp.OnLaunch = func(ctx vivid.ActorContext, p *Probe) { ctx.EventStream().Subscribe(ctx, ves.ActorKilledEvent{}) }
+		}
+		holder.Children = append(holder.Children, sp)
 	}
 	if _, err := w.Spawn(holder); err != nil {
 		r.Fail("C19/harness", "spawn: %v", err)
@@ -332,6 +340,12 @@ func c19PubSub(r *R) {
 			mask |= 1 << uint(s)
 		}
 		return mask
+	}
+	for _, e := range evs {
+		if e.Path == "@obs" && e.Kind == "Evt:DeathLetter" && strings.HasPrefix(e.Ref, "/subs/s") && e.Info == "ves.ActorKilledEvent of="+e.Ref {
+			r.Fail("C19/own-killed-event-sent-to-terminated-subscriber", "%s subscribed to ActorKilledEvent; the event announcing its own termination was still sent to it (and became a dead letter)", e.Ref)
+			return
+		}
 	}
 	// 0. an event published after a subscriber's ActorKilledEvent was observed is neither delivered to it nor dead-lettered for it
 	for _, h := range hist {
